@@ -292,6 +292,72 @@ def run_tables(T, next_token):
         ntok += 1
 
 
+def _api_handler(event):
+    pass
+
+
+_FX = {}
+
+
+def _fixtures():
+    """objects for the API-level checks: one whose wildcard admits every name, one with a fixed set of plain traits"""
+    if not _FX:
+        from traits.api import HasTraits, Any
+        _FX["open"] = type("FxOpen", (HasTraits,), {"_": Any})
+        _FX["closed"] = type("FxClosed", (HasTraits,), {n_: Any for n_ in ("a", "b1", "itemsize", "name", "c")})
+    return _FX["open"], _FX["closed"]
+
+
+def api_checks(ex, kinds, text, names, real_ok):
+    """the entry points users actually call - compile_str, the list form of an expression, HasTraits.observe - agree with parse()"""
+    from traits.has_traits import _compile_expression
+    from traits.observation.exceptions import NotifierNotFound
+    FxOpen, FxClosed = _fixtures()
+    if not real_ok:
+        for label, call in (("compile_str", lambda: parsing.compile_str(text)),
+                            ("HasTraits.observe", lambda: FxOpen().observe(_api_handler, text)),
+                            ("the list form", lambda: _compile_expression([text]))):
+            try:
+                call()
+                rejected = False
+            except ValueError:
+                rejected = True
+            ex.check(rejected, "a string outside the grammar is rejected with ValueError by every entry point (%s)" % label)
+        return
+    try:
+        alone = list(parsing.compile_str(text))
+    except ValueError:
+        return                      # reported by the caller ('an accepted string compiles')
+    _compile_expression([text, "zz9"])
+    _compile_expression([text, text])
+    again = list(parsing.compile_str(text))
+    ex.check(again == alone, "compiling is pure: using a string in a list-form expression does not change what the string alone denotes")
+    if not all(n_ is None or n_ in ("a", "b1", "itemsize", "name", "c") for n_ in names):
+        return                      # the fixture declares these names only (the others in the pool spell wildcard declarations)
+    o = FxClosed()
+    try:
+        o.observe(_api_handler, text)
+        registered = True
+    except Exception as e:
+        registered = False
+    ex.check(registered, "HasTraits.observe accepts every grammatical string over declared names ('items' being the optional items "
+                         "keyword, not a mandatory trait named items)")
+    if registered:
+        other = " ".join(text.split()) if "STAR" in kinds else "[ " + text + " ]"
+        try:
+            o.observe(_api_handler, other, remove=True)
+            removed = True
+        except NotifierNotFound:
+            removed = False
+        ex.check(removed, "removal by an equivalent spelling matches registration by text")
+        try:
+            o.observe(_api_handler, text, remove=True)
+            twice = True
+        except NotifierNotFound:
+            twice = False
+        ex.check(not twice, "... exactly once")
+
+
 def concrete_text(ex, kinds, text, names):
     try:
         tree = RefParser(kinds, names).parse() if kinds else None
@@ -332,6 +398,8 @@ def concrete_text(ex, kinds, text, names):
         except ValueError:
             comp = False
         ex.check(comp, "an accepted string compiles to observer graphs")
+    if real_ok == ref_ok:
+        api_checks(ex, kinds, text, names, real_ok)
     return real_ok
 
 
